@@ -200,9 +200,9 @@ fn collect_entities_field<'a>(
             });
 
             let field_value = match field_future {
-                FieldFuture::Future(fut) => {
-                    fut.await.map_err(|err| err.into_server_error(field.pos))?
-                }
+                FieldFuture::Future(fut) => fut
+                    .await
+                    .map_err(|err| ctx_field.set_error_path(err.into_server_error(field.pos)))?,
                 FieldFuture::Value(value) => value,
             };
             let value = resolve(schema, &ctx_field, &entity_type, field_value.as_ref())
@@ -332,11 +332,6 @@ fn collect_fields<'a>(
                     {
                         collect_service_field(fields, ctx, field);
                         continue;
-                    } else if ctx.schema_env.registry.enable_federation
-                        && field.node.name.node == "_entities"
-                    {
-                        collect_entities_field(fields, schema, ctx, parent_value, field);
-                        continue;
                     }
                 }
 
@@ -348,6 +343,14 @@ fn collect_fields<'a>(
                         async move { Ok((field.node.response_key().node.clone(), Value::Null)) }
                             .boxed(),
                     );
+                    continue;
+                }
+
+                if object.name == schema.0.env.registry.query_type
+                    && ctx.schema_env.registry.enable_federation
+                    && field.node.name.node == "_entities"
+                {
+                    collect_entities_field(fields, schema, ctx, parent_value, field);
                     continue;
                 }
 
